@@ -237,6 +237,18 @@ def decorate(behs, rnd, params):
                 b = [{"ev": "setup", "api": True}] + list(b)
         behs2.append(b)
     behs = behs2
+    # ... and in a share of the behaviours w1 is a MASKED wallet driven with its right token ("with the right token it
+    # behaves exactly like an unmasked wallet": every monitor and the refinement to the model apply unchanged)
+    mshare = params.get("masked_share", 0.25)
+    behs5 = []
+    for b in behs:
+        if b and rnd.random() < mshare:
+            if b[0].get("ev") == "setup":
+                b = [dict(b[0], masked=True)] + list(b[1:])
+            else:
+                b = [{"ev": "setup", "masked": True}] + list(b)
+        behs5.append(b)
+    behs = behs5
     # ... and the balance figures are asked for under different minimum-confirmation settings (the refresh itself does
     # not depend on the setting, the partition of the values into spendable / awaiting confirmation does)
     if params.get("vary_minconf", True):
